@@ -378,6 +378,51 @@ def method_table(rep, u, consts):
     return n
 
 
+SEARCHES = {"mem_chr": (0, 1), "mem_chr_ptr": (1, 2), "mem_chr_off": (1, 2), "mem_rchr": (0, 1), "mem_find": (0, 1), "mem_find_ptr": (1, 2),
+            "mem_find_off": (1, 2), "memchr": (0, 2), "memmem": (0, 1)}
+
+
+def span_rule(rep, u, fname="http_parse_req_line"):
+    """authority, path and query are sub-spans of the request target: once the target span (uri, uri_size) is stored, every
+    search whose result delimits one of its components is bounded by that span - not by the request line or the header
+    block, which extend beyond the target (a delimiter found behind the target gives an authority that swallows the
+    protocol version and a path length that wraps)."""
+    fn = need(u, fname)
+    rep.functions.add(fname)
+    out = fn.params[-1]["n"]
+    span_store = None
+    for pos, root, x, ps in fn.nodes():
+        if x.get("k") == "bin" and x["op"] == "=" and key(strip_casts(x["x"])) == "%s->uri_size" % out:
+            span_store = pos
+    if span_store is None:
+        raise driver.AnalysisBroken("%s: the store of the target span was not found" % fname)
+    # the components: fields of the out record stored after the span (other than the span itself)
+    comp_stores = [pos for pos, root, x, ps in fn.nodes() if x.get("k") == "bin" and x["op"] == "=" and
+                   key(strip_casts(x["x"])).startswith(out + "->") and fn.pos_dominates(span_store, pos) and pos != span_store and
+                   key(strip_casts(x["x"])) not in ("%s->proto_ver" % out,)]
+    last_comp = {p[0] for p in comp_stores}
+    n = 0
+    per = 0
+    for pos, root, c, ps in fn.calls(set(SEARCHES)):
+        if not fn.pos_dominates(span_store, pos) or pos == span_store:
+            continue
+        # only searches from which a component store is reachable (the version parser behind the target is none)
+        if not (fn.reach_from([pos[0]]) & last_comp or pos[0] in last_comp):
+            continue
+        bi, si = SEARCHES[c["fn"]]
+        buf, size = key(strip_casts(c["args"][bi])), key(strip_casts(c["args"][si]))
+        n += 1
+        per += 1
+        inst = "span:%s#%d" % (c["fn"], per)
+        desc = "the search at line %s that delimits a component of the request target is bounded by the target span" % c.get("ln")
+        if buf == "%s->uri" % out and size == "%s->uri_size" % out:
+            rep.proved("R-SPAN", fn, inst, desc, "%s(%s, %s)" % (c["fn"], buf, size), c.get("ln"))
+        else:
+            rep.violated("R-SPAN", fn, inst, desc, "it searches (%s, %s): a delimiter behind the target is found, the component reaches outside "
+                         "the target and the length computed from the target's end wraps" % (buf, size), c.get("ln"))
+    return n
+
+
 def macro_consts(names):
     txt = '#include "%s/src/proto/http.c"\n' % driver.REPO
     for nm in names:
@@ -403,10 +448,11 @@ def run(rep, tier):
     rep.floor("fold byte classes", fold_rule(rep, u), 256)
     count_rule(rep, u)
     rep.floor("method spellings", method_table(rep, u, consts), 14)
+    rep.floor("target component searches", span_rule(rep, u), 3)
     return driver.finish(
         rep, "other",
         "HTTP smuggling checks and field lookup, structural clauses: the rule section of http_req_sec_chk over all count/method "
         "combinations, literal field names, the per-byte classification of the control scan (all byte values), obs-fold handling in "
         "http_hdr_val_get_ex (all byte values after CRLF), case-insensitive name match guards the found path, count loop structure, method "
-        "table classification.  NOT decided: that returned spans equal the RFC 7230/3986 delimitation for every request; query helpers.",
+        "table classification; the searches that split the request target are bounded by the target span.  NOT decided: that returned spans equal the RFC 7230/3986 delimitation for every request; query helpers.",
         ["memcmp/mem_cmpin compare as documented", "mem_find* return the first match or NULL (C13 covers their bodies)"], TRUSTED)
